@@ -13,7 +13,7 @@ import (
 
 func init() {
 	PropertyText["C12"] = [2]string{
-		"Decides the token-accounting shape of the reactor: token pool and input buffer have the same capacity (R-REACT-CAP); a state-table entry can only be created after a token was taken (R-REACT-INSERT) and every taken token leads to the entry plus the input send, or is given back (R-REACT-ACCEPT); a token is released only after LoadAndDelete reported the entry, and always then (R-REACT-RELEASE); inserts and feedback pass a dedicated closed-check of both contexts before any accepting effect (R-REACT-CLOSED-GATE); feedback takes no token and its send is abandonable (R-REACT-NONBLOCK); run forwards every item (R-REACT-RUN).",
+		"Decides the token-accounting shape of the reactor: token pool and input buffer have the same capacity (R-REACT-CAP); a state-table entry can only be created after a token was taken (R-REACT-INSERT) and every taken token leads to the entry plus the input send, or is given back (R-REACT-ACCEPT); a token is released only after LoadAndDelete reported the entry, and always then (R-REACT-RELEASE); inserts and feedback pass a dedicated closed-check of both contexts before any accepting effect (R-REACT-CLOSED-GATE); feedback takes no token and its send is abandonable (R-REACT-NONBLOCK); run forwards every item (R-REACT-RUN). The run loop does not listen to the context Freeze cancels: a frozen reactor still delivers the seeds it accepted (R-REACT-RUN/lifetime).",
 		"Not decided: linearizability of the API under concurrent callers; liveness of the consumer side.",
 	}
 	register(&core.Rule{ID: "R-REACT-CAP", Props: []string{"C12"}, Doc: "tokenPool and input are made with the same capacity value — the fact that makes the post-token input send and the feedback send non-blocking", Run: ruleReactCap})
